@@ -27,6 +27,7 @@ import (
 	"github.com/zmap/zcrypto/x509/revocation/crl"
 	"verifmc/internal/ev"
 	"verifmc/internal/fx"
+	"verifmc/internal/nohb"
 )
 
 // ---------------------------------------------------------------- alphabets
@@ -506,12 +507,26 @@ func queryCert(q *big.Int) *x509.Certificate {
 
 // evalCall runs one CheckCRLForCert call and judges it.
 func evalCall(cl *pkix.CertificateList, m *model, q *big.Int, mode int, cache map[string]*pkix.RevokedCertificate, h ev.Hist) []verdict {
+	return evalCallCert(cl, m, queryCert(q), q, mode, cache, h, nil)
+}
+
+// callResult is what one call returned (kept by the history oracle).
+type callResult struct {
+	got *crl.RevocationData
+	err error
+}
+
+// evalCallCert is evalCall with the caller's own certificate object (serial q);
+// the raw result is stored in *keep when keep is not nil.
+func evalCallCert(cl *pkix.CertificateList, m *model, cert *x509.Certificate, q *big.Int, mode int, cache map[string]*pkix.RevokedCertificate, h ev.Hist, keep *callResult) []verdict {
 	var out []verdict
-	cert := queryCert(q)
 	var got *crl.RevocationData
 	var err error
 	if p, msg, site := ev.Try(func() { got, err = crl.CheckCRLForCert(cl, cert, cache) }); p {
 		return []verdict{{"panic@" + site + ": " + ev.MsgClass(msg), msg}}
+	}
+	if keep != nil {
+		keep.got, keep.err = got, err
 	}
 	if err != nil && m.crlNum != nil && !fitsInt(m.crlNum) {
 		// RevocationData carries the CRL number in an int: a number that does not
@@ -636,6 +651,10 @@ func build(c cfg) (*pkix.CertificateList, *model, []byte, string) {
 }
 
 func main() {
+	if nohb.IsWorker() {
+		nohb.WorkerMain(reentrantOps(), reentrantRepoDir())
+		return
+	}
 	ev.Main("C14", "model_checking", func(c *ev.Ctx) {
 		initCAs()
 		maxLen := ev.Pick(c, 4, 5)
@@ -643,13 +662,14 @@ func main() {
 		orders := ev.Pick(c, 1, 2)
 		issuers := ev.Pick(c, 1, 2)
 		debug.SetGCPercent(200)
-		c.Rule(fmt.Sprintf("hand-assembled pkix.CertificateList: entry lists = all sequences of length<=%d over serials {1,2,-1,2^64,2^159} (repeats = duplicates with different times) x time mode {distinct, first entry zero time} x entry extensions {none, reason on all, reason+invalidityDate on odd} x header; header = list extensions {CRL number in {none,0,7,2^31,2^70}} x {AKID} x {unknown critical} x {unknown non-critical} x %d order(s) x version {0,1} x NextUpdate {set,zero} x %d issuer name(s): the full header product for every list of length<=%d, and the 8-element header subset {CRL number none|2^70} x {no other extension | AKID+critical+non-critical} x {v1,NextUpdate zero | v2,NextUpdate set} for longer lists (lookup and header copying share no code path), plus, for every list of length<=%d, CRL number in {-1, 2^63-1, 2^63, 2^159-1} x {no other extension | AKID+critical+non-critical} x {v1,NextUpdate zero | v2,NextUpdate set}; a CRL number that fits int must be copied, one that does not (2^63, 2^70, 2^159-1; also 2^31 and 2^63-1 where int has 32 bits) must make the call fail: a successful call reporting any number is a violation; CreateCRL source: all lists x entry extensions x issuer with/without SKID x expiry {set,zero}, DER parsed by ParseDERCRL and cross-read with crypto/x509; every CRL x query serial in {1,2,-1,2^64,2^159,3,0} x cache in {nil, first-wins, last-wins, empty non-nil}; a CRL is non-trivial/distinct by its configuration", maxLen, orders, issuers, fullHdrLen, fullHdrLen))
+		c.Rule(fmt.Sprintf("hand-assembled pkix.CertificateList: entry lists = all sequences of length<=%d over serials {1,2,-1,2^64,2^159} (repeats = duplicates with different times) x time mode {distinct, first entry zero time} x entry extensions {none, reason on all, reason+invalidityDate on odd} x header; header = list extensions {CRL number in {none,0,7,2^31,2^70}} x {AKID} x {unknown critical} x {unknown non-critical} x %d order(s) x version {0,1} x NextUpdate {set,zero} x %d issuer name(s): the full header product for every list of length<=%d, and the 8-element header subset {CRL number none|2^70} x {no other extension | AKID+critical+non-critical} x {v1,NextUpdate zero | v2,NextUpdate set} for longer lists (lookup and header copying share no code path), plus, for every list of length<=%d, CRL number in {-1, 2^63-1, 2^63, 2^159-1} x {no other extension | AKID+critical+non-critical} x {v1,NextUpdate zero | v2,NextUpdate set}; a CRL number that fits int must be copied, one that does not (2^63, 2^70, 2^159-1; also 2^31 and 2^63-1 where int has 32 bits) must make the call fail: a successful call reporting any number is a violation; CreateCRL source: all lists x entry extensions x issuer with/without SKID x expiry {set,zero}, DER parsed by ParseDERCRL and cross-read with crypto/x509; every CRL x query serial in {1,2,-1,2^64,2^159,3,0} x cache in {nil, first-wins, last-wins, empty non-nil}; a CRL is non-trivial/distinct by its configuration. HISTORY oracle (one goroutine, before anything else runs): all sequences of 2 calls (and of 3 calls: quick over 3 model lists x serials {1,3}, thorough over all 5 lists x serials {1,2^64,3}) over 5 model lists (different issuer / CRL number incl. an unrepresentable one / extension sets / entries; hand-assembled and CreateCRL+ParseDERCRL) x serials {1,2,2^64,3} x list action {same pointer unchanged | same pointer overwritten in place by every other model list (*p = *fresh) | same pointer, entry appended to RevokedCertificates | another pointer with equal content | another pointer with every other model list} x cache {nil | fresh map | the same map object, refilled in place by its owner when the entries changed} x certificate {same object | same object, serial Set in place | same object, serial replaced | another object}: every call is judged by the single-call oracle on the content currently behind the pointer, its complete RevocationData must equal that of the same call made in isolation on fresh deep copies (pre-pass), the list / certificate / cache arguments must equal deep copies taken before the call, and results returned earlier must not change afterwards", maxLen, orders, issuers, fullHdrLen, fullHdrLen))
 		c.Assume(
 			"the cache is keyed by the decimal string of the serial (the convention of crl_test.go) and points at the CRL's own entries",
 			"reference = linear first-match search over the model's entry list; extension values are encoded/decoded with the standard library's encoding/asn1",
 			"a non-nil empty cache for a CRL that lists the queried serial: both answers accepted (statement silent); last-wins cache on duplicates: time of first or last accepted, counted separately",
 			"authority key id: kept as unknown non-critical extension or decoded into CRLExtensions.AuthKeyID are both accepted; a CRL number that does not fit the int field ListExtensionData.CRLNumber cannot be copied: only an error is accepted",
-			"RevocationData.Version / signature fields are not named by the statement: differences are information only",
+			"RevocationData.Version / signature fields are not named by the statement: differences are information only in a single call; in a history every field must equal the isolated call's (a function of its arguments)",
+			"history oracle: a cache map re-used after the list's entries changed is refilled in place by the caller before the call (a stale cache is not 'built from the same entries'); a cache pointing at the entries of another list object with equal content is used as is",
 		)
 
 		report := func(cf cfg, vs []verdict, der []byte) {
@@ -659,6 +679,11 @@ func main() {
 		}
 
 		if c.Replay != nil {
+			var hw hWitness
+			if err := json.Unmarshal(c.Replay, &hw); err == nil && hw.Kind == "history" {
+				replayHistory(c, hw)
+				return
+			}
 			var w witness
 			if err := json.Unmarshal(c.Replay, &w); err != nil {
 				c.Broken("bad witness: %v", err)
@@ -675,6 +700,9 @@ func main() {
 			c.Transitions.Add(1)
 			return
 		}
+
+		// sequences of calls: single-threaded, nothing else is calling into zcrypto yet
+		historyPhase(c)
 
 		lists := allLists(maxLen)
 		c.Set("entry_lists", len(lists))
@@ -800,6 +828,7 @@ func main() {
 		if !done {
 			stopped = true
 		}
+		reentrantPhase(c)
 		if stopped {
 			c.Incomplete("time budget hit before all (entry list, time mode, entry extension) units were evaluated")
 		}
